@@ -70,6 +70,19 @@ VERDICT = {
     "C13-4": ("C13 K1c", "module-level ignore scope kernel (fastparse) added after the miss"),
     "C15-3": ("C15 K1d", "GetIntDigits kernel added after the miss; replay = real mypyc build"),
     "C15-4": ("C05, C15 K2", "as it stood (the sub-agent independently re-made the slip of C15-2 for all fixed-width types)"),
+    # fourth round (C02 C11 C12 C16 C17 C18): several sub-agents re-made slips of earlier rounds
+    "C02-5": ("C02 K4", "as it stood (same slip as C02-1)"),
+    "C02-6": ("C11 K2b", "as it stood (same slip as C11-1: falsy Final values in the JSON writer)"),
+    "C11-5": ("C11 K2b", "as it stood (same slip as C11-3)"),
+    "C11-6": ("C11 K2b", "the check crashed (exit 2) on the AssertionError raised by the real fix-up; exceptions of the real round trip are now findings -> VIOLATION"),
+    "C12-5": ("C12 K3", "as it stood"),
+    "C12-6": ("C12 K1", "as it stood (same idea as C12-4)"),
+    "C16-5": ("C16 K1a/K1c", "the check crashed (exit 2): the byte-buffer stand-in had no slice deletion; added -> VIOLATION"),
+    "C16-6": ("C16 K2", "as it stood (same slip as C16-4)"),
+    "C17-5": ("C17 K4", "as it stood (same slip as C17-1/C17-4)"),
+    "C17-6": ("C17 K2", "as it stood (same slip as C17-2)"),
+    "C18-5": ("C18 D", "as it stood (same slip as C18-3)"),
+    "C18-6": ("C18 E", "as it stood"),
     # third round
     "C04-3": ("C04", "as it stood (new durable-state keys for the sqlite store)"),
     "C04-4": ("C04", "as it stood (the sub-agent independently re-made the slip of C04-2)"),
